@@ -35,4 +35,23 @@ theorem applyOpts_order {δ : Type} (opts : List Opt) :
     (applyOpts opts : Ctx δ) = (defaultOpts ++ opts).foldl applyOpt ⟨none, [], .none⟩ := by
   simp [applyOpts, List.foldl_append]
 
+/-- re-adding an existing name with a merge function does what the statement list of the option
+    constructor that installed it says -/
+theorem addContext_reAdd_eq_table {δ : Type} (s : State δ) (name : String) (doc : δ) (newCtx ex : Ctx δ)
+    (ctor : String) (hx : AMap.get? s.ctxMap name = some ex) (hc : newCtx.mergeFn.ctor = some ctor) :
+    addContext s name doc newCtx = reAddBy optionTable s name newCtx ex ctor := by
+  unfold addContext reAddBy
+  rw [hx]
+  cases hm : newCtx.mergeFn with
+  | none => simp [hm, MergeFn.ctor] at hc
+  | mergeTags =>
+    simp [hm, MergeFn.ctor] at hc
+    subst hc
+    simp [optionTable, List.lookup, mergeFnBy]
+    cases newCtx.doc <;> simp [hm]
+  | mustCreate =>
+    simp [hm, MergeFn.ctor] at hc
+    subst hc
+    simp [optionTable, List.lookup, mergeFnBy]
+
 end Ytk.DocSet
